@@ -87,7 +87,11 @@ def run(tier):
     rep.rule('R04.b', 'names: machine name / SSID length = min(returned, 32) and the payload is what the getter wrote', floor=4)
     rep.rule('R04.c', 'wireless properties are present iff the port reports a Wi-Fi mode', floor=4)
     rep.rule('R04.d', 'Linux port: address, MTU, type copied; link speed / 100; duplex and loopback mapped to their characteristics bits', floor=6)
-    fs, sums, obs, stats = analyse(mtu_ok=True, regions=['topo.discover', 'quick.discover'])
+    # the Wi-Fi getter's outcome is kept apart at merges: a path "reported a mode, emitted nothing" must not dissolve into
+    # the wired path it resembles
+    from .frame_common import TOS, OPC
+    nwifi = [0]
+    fs, sums, obs, stats = analyse(mtu_ok=True, regions=['topo.discover', 'quick.discover'], tracked=(TOS, OPC, rc_atom('wifi_mode')))
     nhello = 0
     WIFI = {0x04, 0x05, 0x06, 0x09, 0x0D}
     for region, lst in sums.items():
@@ -119,7 +123,7 @@ def run(tier):
                         ret = ('sym', 'ret.' + name, 0, (1 << 64) - 1)
                         dr = st.dom(ret)
                         # length byte is the getter's return value clamped to 32
-                        okl = (dr.hi <= 32 and st.same(lb, ret)) or (dr.lo > 32 and st.same(lb, C(32)))
+                        okl = (dr.hi <= 32 and st.same(lb, ret)) or (dr.lo >= 32 and st.same(lb, C(32)))      # (at exactly 32 both spellings of min() agree)
                         rep.check(okl, 'R04.b', '%s|length' % name, '%s length byte is %s with the getter returning %s; expected min(returned, 32)' % (name, short(lb), dr),
                                   function='set%sTLV' % ('Hostname' if ty == 0x0F else 'SSID'), file=fnf, sample={'property': name, 'length': short(lb), 'returned': repr(dr)})
                         # payload origin: the getter was handed exactly the payload area (buffer + position + 2, at most 32 bytes)
@@ -147,6 +151,7 @@ def run(tier):
                 rcw = st.dom(rc_atom('wifi_mode'))
                 has = WIFI & set(seen)
                 if rcw.const() == 0:
+                    nwifi[0] += 1
                     rep.check(0x04 in seen and 0x09 in seen and 0x0D in seen, 'R04.c', 'gate|wifi-present',
                               'the port reports a Wi-Fi mode but the Hello lacks wireless properties (has %s)' % sorted('0x%02x' % x for x in has), function='answerHello',
                               file='lltdResponder/lltdBlock.c')
@@ -158,6 +163,8 @@ def run(tier):
                               function='answerHello', file='lltdResponder/lltdBlock.c')
     if nhello < 4:
         rep.broke('only %d Hello frames found' % nhello)
+    if not nwifi[0]:
+        rep.broke('no Hello path on which the port is known to have reported a Wi-Fi mode')
     linux_port(rep)
     rep.analysed.update({'hello_frames_parsed': nhello})
     return finish(rep, 'proof',
